@@ -1,14 +1,18 @@
 package props
 
 import (
+	"crypto/sha1"
 	"encoding/json"
+	"fmt"
 	"os"
+	"sort"
 
 	hdf5 "github.com/scigolib/hdf5"
 	"github.com/scigolib/hdf5/internal/core"
 
 	"github.com/scigolib/hdf5/internal/zzverif/ev"
 	"github.com/scigolib/hdf5/internal/zzverif/hx"
+	"github.com/scigolib/hdf5/internal/zzverif/specdec"
 )
 
 // dumpScriptIfReplay writes the complete operation script of a replayed case next to the
@@ -59,4 +63,68 @@ func coreHeader(f *hdf5.File, ds *hdf5.Dataset) (*dsMeta, error) {
 		m.layout = "contig"
 	}
 	return m, nil
+}
+
+// specDigest is the logical content of a file as the independent decoder sees it: per path
+// the kind, shape, datatype bytes, a digest of the stored data (variable-length data resolved
+// element by element through the global heap) and the attributes' names and raw values.
+func specDigest(path string) (map[string]string, error) {
+	f, err := os.Open(path)
+	if err != nil {
+		return nil, err
+	}
+	defer f.Close()
+	st, _ := f.Stat()
+	sd, err := specdec.Decode(f, st.Size(), specdec.Options{Tolerate: specdec.AllTolerances()})
+	if err != nil {
+		return nil, err
+	}
+	out := map[string]string{}
+	sd.Walk(func(p string, o *specdec.Object, l *specdec.Link) {
+		if o == nil {
+			if l != nil {
+				out[p] = "link"
+			}
+			return
+		}
+		if _, dup := out[p]; dup {
+			return
+		}
+		h := sha1.New()
+		fmt.Fprintf(h, "%s|%v|", o.Kind, o.Space.Dims)
+		desc := fmt.Sprintf("%s dims=%v", o.Kind, o.Space.Dims)
+		if o.Type != nil {
+			h.Write(o.Type.Raw)
+		}
+		if o.Kind == "dataset" {
+			raw, rerr := sd.ReadData(o)
+			switch {
+			case rerr != nil:
+				fmt.Fprintf(h, "data-error")
+				desc += " data-error:" + rerr.Error()
+			case o.Type != nil && o.Type.Class == 9:
+				els, verr := sd.VLenElements(raw, o.Type)
+				if verr != nil {
+					fmt.Fprintf(h, "vlen-error")
+					desc += " vlen-error:" + verr.Error()
+				}
+				for _, e := range els {
+					fmt.Fprintf(h, "%d:", len(e))
+					h.Write(e)
+				}
+				desc += fmt.Sprintf(" vlen-elements=%d", len(els))
+			default:
+				h.Write(raw)
+				desc += fmt.Sprintf(" bytes=%d", len(raw))
+			}
+		}
+		var an []string
+		for _, a := range o.Attrs {
+			an = append(an, fmt.Sprintf("%s=%x", a.Name, sha1.Sum(a.Raw)))
+		}
+		sort.Strings(an)
+		fmt.Fprintf(h, "|%v", an)
+		out[p] = fmt.Sprintf("%s attrs=%d sha=%x", desc, len(an), h.Sum(nil)[:8])
+	})
+	return out, nil
 }
